@@ -1,6 +1,6 @@
 (* Correspondence evaluators for the splitter and the stream scanner (C01, C10 scanner level). *)
 From Coq Require Import ZArith NArith List Bool.
-Require Import Base.Bytes Model.Frame Model.Split Lib.Bufio Spec.FrameSpec Spec.StreamSpec Run.EvalBase.
+Require Import Base.Bytes Model.Frame Model.Split Lib.Bufio Spec.FrameSpec Spec.StreamSpec Spec.Terminal Run.EvalBase.
 Import ListNotations.
 Open Scope N_scope.
 
@@ -9,7 +9,6 @@ Definition term_eqb (a b : terminal) : bool :=
   | TEnd, TEnd => true | TTooLong, TTooLong => true | TNoProgress, TNoProgress => true
   | TPort x, TPort y => x =? y | _, _ => false
   end.
-Definition tterm (z : term) (fin : terminal) := match z with STooLong => TTooLong | SEnd => fin end.
 
 (* direct calls of ScanMessages: (data, atEOF, advance, token) *)
 Definition case_split := (list N * bool * N * option (list N))%type.
